@@ -1479,6 +1479,11 @@ def gate_replay(ck, prop, tier, front="api"):
     for a in garts:
         ck.add_tlc(a)
     chosen = goals + chosen
+    # the same behaviours once more with the self-ending searches on positions WITHOUT legal moves (mate / stalemate) instead of
+    # with a depth limit: the work of such a search ends at once, in every mode, and its result is "no move"
+    term = [dict(b, id=b["id"] + 2000000, terminal=True) for b in chosen
+            if any(st["l"] == "call.start" and st.get("x") and st["x"][1] for st in b["steps"])]
+    chosen = chosen + term[:60 if tier == "quick" else 600]
     if front == "uci":
         chosen = [b for b in chosen if not any(st["l"] == "call.wait" for st in b["steps"])]
     byid = {b["id"]: b for b in chosen}
@@ -1496,7 +1501,7 @@ def gate_replay(ck, prop, tier, front="api"):
     # a behaviour that left the model, or on which a monitor fired, is replayed once more on its own before it counts: clock
     # ticks and the monitors' allowances are real time, and a stalled machine makes a timer see more time than the model's
     # clock says (a real defect is forced by the same schedule again and shows again)
-    redo = [byid[r["id"]] for r in results if (r.get("diverged") or r.get("stuck") or r.get("early") or r.get("option_lost") or r["results"] != r["accepted"])
+    redo = [byid[r["id"]] for r in results if (r.get("diverged") or r.get("stuck") or r.get("early") or r.get("option_lost") or r.get("valid_start_rejected") or r["results"] != r["accepted"])
             and not r["hang"]][:32]
     if redo:
         rr, _ = run_life(redo, watchdog=8000, cmd="life-gate", procs=2, extra=extra)
@@ -1535,13 +1540,15 @@ def gate_replay(ck, prop, tier, front="api"):
             disc("result-before-stop", "early-result/" + e["mode"], res, {"search": e["search"], "note": e["note"], "diverged": d})
         for e in res.get("option_lost") or []:
             disc("setoption", "option/not-applied-although-protocol-valid", res, {"note": e, "diverged": d})
+        for e in res.get("valid_start_rejected") or []:
+            disc("valid-start-rejected", "start/rejected-after-result" + ("/terminal-position" if byid[res["id"]].get("terminal") else ""), res, {"note": e, "diverged": d})
         for e in res.get("stuck") or []:
             disc("search-does-not-end", "no-self-end/" + e["mode"], res, {"search": e["search"], "note": e["note"], "diverged": d})
     ck.cov.setdefault("counters", {})
     ck.cov["counters"].update({"gate_front": front, "gate_behaviours_generated": ngen, "gate_behaviours_replayed": len(results), "gate_in_lock_step": lock,
                                "gate_diverged": div, "gate_steps_in_lock_step": steps, "gate_context_switches_forced": switches,
                                "gate_features_covered": ncov, "gate_features_in_generated_set": nall, "gate_scenario_goals": len(goals),
-                               "gate_scenario_goals_in_lock_step": sum(1 for r in results if r["id"] >= 900000 and not r.get("diverged"))})
+                               "gate_scenario_goals_in_lock_step": sum(1 for r in results if 900000 <= r["id"] < 2000000 and not r.get("diverged"))})
     ck.cov["traces_validated_against_impl"] += lock
     ck.cov["evaluations"] += steps
     return results
@@ -1610,7 +1617,7 @@ def check_C14(tier):
     mc = (3, 5, 3) if quick else (3, 6, 4)
     cfg = ('SPECIFICATION Spec\nCONSTANTS\n  MaxSearches = %d\n  MaxCalls = %d\n  MaxClock = %d\n  TL = 2\n'
            '  Modes = {"depth", "time", "inf", "ponder"}\n  FixReject = TRUE\n  FixLimits = TRUE\n  FixTimer = TRUE\n  FixToken = TRUE\n  FixTail = TRUE\n'
-           'INVARIANTS TypeOK NoCtrlStuck OneResultEach OwnStopOnly NoResultBeforeStop\nCHECK_DEADLOCK FALSE\n' % mc)
+           'INVARIANTS TypeOK NoCtrlStuck OneResultEach OwnStopOnly NoResultBeforeStop\nPROPERTY RejectOnlyUnanswered\nCHECK_DEADLOCK FALSE\n' % mc)
     a = vlib.tlc("SearchLifecycle", cfg, workers=16, heap="24g", tag="life-mc", keep_out=False, timeout=6 * 3600)
     ck.add_tlc(a)
     # 2. real runs: named scenarios (the counterexamples TLC finds for the unrepaired code) and random scripts
